@@ -210,19 +210,29 @@ func insertMethod(class, super slip.Class, method *slip.Method, combo *slip.Comb
 		mm[method.Name] = m
 		return
 	}
-	var pos int
-	if pos < len(m.Combinations) && m.Combinations[pos].From == class {
+	// The combination goes where the precedence list (the class itself and
+	// then the inherited classes in order) places super: after every
+	// combination from a class that precedes super and before all others.
+	order := append([]slip.Class{class}, class.InheritsList()...)
+	rank := func(c slip.Class) int {
+		for i, f := range order {
+			if f == c {
+				return i
+			}
+		}
+		return len(order)
+	}
+	sr := rank(super)
+	pos := 0
+	for pos < len(m.Combinations) && rank(m.Combinations[pos].From) < sr {
 		pos++
 	}
-	for _, f := range class.InheritsList() {
-		if len(m.Combinations) <= pos || m.Combinations[pos].From == super {
-			break
-		}
-		if m.Combinations[pos].From == f {
-			pos++
-		}
-	}
-	m.Combinations = append(append(m.Combinations[:pos], combo), m.Combinations[pos:]...)
+	// Build a new slice, appending to m.Combinations[:pos] would overwrite
+	// the element at pos.
+	combos := make([]*slip.Combination, 0, len(m.Combinations)+1)
+	combos = append(combos, m.Combinations[:pos]...)
+	combos = append(combos, combo)
+	m.Combinations = append(combos, m.Combinations[pos:]...)
 }
 
 // DefCallerMethod defines a method for a caller.
